@@ -234,6 +234,21 @@ structure Handler where
   frame_count : Int
 deriving Repr, DecidableEq
 
+/-- A call frame (object.rs `CallFrame`): the resume point, the base of its slots on the value stack, and its closure as a value. -/
+structure FrameRec where
+  ip : Int
+  slotBase : Int
+  closure : Value
+deriving Repr, DecidableEq
+
+/-- A closure as the call mechanism sees it: the number of slots its function reserves (`function.arity` = parameters + 1), the
+first instruction of its code, and the closure as a value. -/
+structure ClosureRec where
+  arity : Int
+  entry : Int
+  value : Value
+deriving Repr, DecidableEq
+
 /-- A fiber that is NOT running (a caller waiting for the running one, a suspended one, a new one, a finished one): what is parked of it
 when control leaves it, and what `load_fiber`/`unload_fiber` read and write of a fiber other than the running one. -/
 structure FiberRec where
@@ -252,6 +267,10 @@ structure FiberRec where
   entryIp : Int
   /-- `frames[0].closure`, as a value -/
   closure0 : Value
+  /-- the current frame's `slot_base` and closure, and the frames below it (outermost first) -/
+  slotBase : Int := 0
+  curClosure : Value := .None
+  outer : List FrameRec := []
 deriving Repr
 
 structure Vm where
@@ -286,6 +305,10 @@ structure Vm where
   closure0 : Value := .None
   /-- every other fiber, by its number -/
   parked : List (Nat × FiberRec) := []
+  /-- the running fiber's current frame's closure, and its frames BELOW the current one (outermost first); the current frame is
+  (`frameIp`, `slotBase`, `curClosure`), `frames` counts all of them -/
+  curClosure : Value := .None
+  outer : List FrameRec := []
 deriving Repr
 
 def Vm.pop (vm : Vm) : M (Value × Vm) :=
@@ -330,10 +353,31 @@ def Vm.takeReturnIp (vm : Vm) : M (Option Int × Vm) := .ok (vm.returnIp, { vm w
 def Vm.truncateStack (vm : Vm) (n : Int) : M Vm :=
   if n < 0 then .panic else if n.toNat ≤ vm.stack.length then .ok { vm with stack := vm.stack.take n.toNat } else .panic
 
-/-- `frames.truncate(n)` (`Vec::truncate`: no effect when there are fewer) -/
-def Vm.truncateFrames (vm : Vm) (n : Int) : Vm := { vm with frames := min vm.frames n }
+/-- `frames.truncate(n)` (`Vec::truncate`: no effect when there are no more than n): the frames above the n-th are dropped, the n-th
+becomes the current one. -/
+def Vm.truncateFrames (vm : Vm) (n : Int) : Vm :=
+  if vm.frames ≤ n then vm
+  else
+    let keep := (vm.outer ++ [(⟨vm.frameIp, vm.slotBase, vm.curClosure⟩ : FrameRec)]).take n.toNat
+    match keep.getLast? with
+    | some c => { vm with frames := n, outer := keep.dropLast, frameIp := c.ip, slotBase := c.slotBase, curClosure := c.closure }
+    | none => { vm with frames := n, outer := [] }
+
+/-- `frames.pop()` (as a statement: the popped frame is dropped; nothing happens when there is none). -/
+def Vm.popFrame (vm : Vm) : Vm := if vm.frames ≤ 0 then vm else vm.truncateFrames (vm.frames - 1)
+
+/-- `ObjFiber::push_call_frame(closure)`: the current frame goes below, the new one starts at the closure's first instruction with
+its slots beginning `arity` below the top of the value stack (`self.stack.len() - arity`: a checked subtraction). -/
+def Vm.pushCallFrame (vm : Vm) (c : ClosureRec) : M Vm :=
+  M.bind (isub .usize (vm.stack.length : Int) c.arity) fun base =>
+  .ok { vm with
+    outer := if vm.frames ≤ 0 then [] else vm.outer ++ [(⟨vm.frameIp, vm.slotBase, vm.curClosure⟩ : FrameRec)],
+    frames := (if vm.frames ≤ 0 then 0 else vm.frames) + 1, frameIp := c.entry, slotBase := base, curClosure := c.value }
 
 def Vm.closeUpvalues (vm : Vm) (index : Int) : Vm := { vm with closed := vm.closed ++ [(index, (vm.stack.length : Int))] }
+
+/-- `ObjFiber::close_upvalues_for_frame`: `close_upvalues(current_frame().unwrap().slot_base)` -/
+def Vm.closeUpvaluesForFrame (vm : Vm) : M Vm := if vm.frames ≤ 0 then .panic else .ok (vm.closeUpvalues vm.slotBase)
 
 /-- `current_frame_mut().unwrap().ip = x` -/
 def Vm.setFrameIp (vm : Vm) (x : Int) : M Vm := if vm.frames ≤ 0 then .panic else .ok { vm with frameIp := x }
@@ -352,11 +396,13 @@ def Vm.raise (vm : Vm) (e : Err) : M (Except Err Unit × Vm) :=
 
 def Vm.currentRec (vm : Vm) : FiberRec :=
   { stack := vm.stack, handlers := vm.handlers, frames := vm.frames, frameIp := vm.frameIp, returnIp := vm.returnIp,
-    returnValue := vm.returnValue, errorIp := vm.errorIp, caller := vm.caller, entryIp := vm.entryIp, closure0 := vm.closure0 }
+    returnValue := vm.returnValue, errorIp := vm.errorIp, caller := vm.caller, entryIp := vm.entryIp, closure0 := vm.closure0,
+    slotBase := vm.slotBase, curClosure := vm.curClosure, outer := vm.outer }
 
 def Vm.withRec (vm : Vm) (r : FiberRec) : Vm :=
   { vm with stack := r.stack, handlers := r.handlers, frames := r.frames, frameIp := r.frameIp, returnIp := r.returnIp,
-            returnValue := r.returnValue, errorIp := r.errorIp, caller := r.caller, entryIp := r.entryIp, closure0 := r.closure0 }
+            returnValue := r.returnValue, errorIp := r.errorIp, caller := r.caller, entryIp := r.entryIp, closure0 := r.closure0,
+            slotBase := r.slotBase, curClosure := r.curClosure, outer := r.outer }
 
 def lookupFiber (ps : List (Nat × FiberRec)) (id : Nat) : Option FiberRec := (ps.find? (·.1 == id)).map (·.2)
 
